@@ -281,6 +281,68 @@ func (k *c14Cast) run(cfg c14Cfg, hist []int) (key string, viols []c14Viol, trac
 	return
 }
 
+// c14IssuerPairs: pairs of issuers with different names which look alike once rendered (TeletexString octets which
+// are not valid UTF-8). A response cached for (X, serial) must not be served for (Y, serial).
+func c14IssuerPairs(chk *fw.Check) int {
+	p := world.Std()
+	mk := func(raw []byte, idx int, serial int64) *world.Ident {
+		return world.Issue(p.Root, world.CertOpt{CN: fmt.Sprintf("pair-%d", serial), RawSubject: raw, IsCA: true, KeyKind: "ec", KeyIdx: idx, Serial: big.NewInt(serial)})
+	}
+	pairs := []struct {
+		name string
+		x, y *world.Ident
+	}{
+		{"teletex-octet", mk(world.RawDNT61("O", "verif", "CN", "M\xfcller CA"), 6, 78), mk(world.RawDNT61("O", "verif", "CN", "M\xf6ller CA"), 7, 79)},
+		// (names which RFC 5280 name matching treats as equal - other letter case, compressed blanks, another string
+		// type with the same text - are deliberately not in this list: they may share an entry)
+		{"teletex-other-character", mk(world.RawDNT61("O", "verif", "CN", "M\xfcller CA"), 6, 80), mk(world.RawDNT61("O", "verif", "CN", "Mueller CA"), 7, 81)},
+	}
+	n := 0
+	for _, pr := range pairs {
+		pr := pr
+		if string(pr.x.Cert.RawSubject) == string(pr.y.Cert.RawSubject) {
+			panic("c14IssuerPairs: names are equal")
+		}
+		seqWorld(func() {
+			net := world.NewNet()
+			w := NewOW(false, 10*time.Minute, nil, net)
+			urls := map[*world.Ident]string{pr.x: "http://ocsp.test/x", pr.y: "http://ocsp.test/y"}
+			for ca, url := range urls {
+				ca := ca
+				net.Routes[url] = &world.Behaviour{Label: "ocsp", Fn: func(req *http.Request, body []byte) (int, []byte, error) {
+					r, err := xocsp.ParseRequest(body)
+					if err != nil {
+						return 400, nil, nil
+					}
+					st := xocsp.Good
+					if ca == pr.y {
+						st = xocsp.Revoked
+					}
+					return 200, world.BuildOCSP(world.OCSPAnswer{Status: st, Serial: r.SerialNumber, Issuer: ca, Signer: ca, ThisUpdate: vsched.Now().Add(-time.Minute)}), nil
+				}}
+			}
+			lx := world.Issue(pr.x, world.CertOpt{CN: "same subject", Serial: big.NewInt(5000), KeyKind: "ec", KeyIdx: 5, OCSP: []string{urls[pr.x]}})
+			ly := world.Issue(pr.y, world.CertOpt{CN: "same subject", Serial: big.NewInt(5000), KeyKind: "ec", KeyIdx: 5, OCSP: []string{urls[pr.y]}})
+			v1 := w.Lookup(lx, world.Chain(lx, pr.x, p.Root))
+			h1 := len(net.Hits)
+			v2 := w.Lookup(ly, world.Chain(ly, pr.y, p.Root))
+			n++
+			if v1.String() != "OK" || h1 != 1 {
+				chk.Violation("C14|fresh-answer-wrong|issuer-pair="+pr.name, fmt.Sprintf("first lookup (issuer X, good): %s after %d requests", v1, h1), nil)
+				return
+			}
+			if len(net.Hits) == h1 {
+				chk.Violation("C14|hit-for-other-certificate|issuer-pair="+pr.name,
+					fmt.Sprintf("the status cached for issuer X (name octets % x) serial 5000 was served for the certificate of issuer Y (name octets % x) with the same serial without any request: %s (Y's responder says revoked)", pr.x.Cert.RawSubject, pr.y.Cert.RawSubject, v2), nil)
+			} else if v2.String() != "REVOKED" {
+				chk.Violation("C14|fresh-answer-wrong|issuer-pair="+pr.name, fmt.Sprintf("second lookup (issuer Y, revoked): %s %s", v2, v2.Err), nil)
+			}
+			w.Chk.Cleanup()
+		})
+	}
+	return n
+}
+
 // RunC14 is the entry point of the C14 check.
 func RunC14(tier string, args []string) int {
 	chk := fw.NewCheck("C14", tier, "model_checking")
@@ -334,10 +396,12 @@ func RunC14(tier string, args []string) int {
 	}
 	samples = append(samples, map[string]interface{}{"config": "default=10m nextUpdate=absent", "history": []string{"lookup(c1,V1)", "advance(L/2)", "lookup(c1,V1)", "advance(L/2)", "flipA(c1->revoked)", "lookup(c1,V1)"}})
 	samples = append(samples, map[string]interface{}{"config": "default=10m nextUpdate=absent", "history": []string{"lookup(c1',V1)", "flipA(c1->revoked)", "lookup(c1,V2)"}})
+	pairCases := c14IssuerPairs(chk)
 	cov := fw.Coverage{
-		"states":                        total.States,
-		"transitions":                   total.Transitions,
-		"traces_validated_against_impl": total.Transitions,
+		"states":                        total.States + pairCases,
+		"transitions":                   total.Transitions + 2*pairCases,
+		"traces_validated_against_impl": total.Transitions + pairCases,
+		"issuer_pair_histories":         pairCases,
 		"max_depth":                     total.MaxDepth,
 		"merged_transitions":            total.Pruned,
 		"per_config":                    perCfg,
